@@ -263,8 +263,17 @@ fn collect_cached_files(cache_dir: &Path) -> Result<(Vec<CachedFile>, u64)> {
                 err => err?,
             };
 
-            if meta.is_dir() {
-                // Don't count subdirectories, we never delete them.
+            // Cache keys never start with a dot: dot-prefixed files
+            // belong to the application (or to Kismet's own
+            // `.kismet` namespace), and are safe from eviction.
+            let is_dotfile = matches!(
+                entry.file_name().as_encoded_bytes().first(),
+                Some(b'.')
+            );
+
+            if meta.is_dir() || is_dotfile {
+                // Don't count subdirectories or dot files, we never
+                // delete them.
                 count -= 1;
             } else {
                 cache.push(CachedFile::new(entry, &meta));
